@@ -1318,7 +1318,7 @@ func c11WellFormedOracle(r *Rng, tier string, rep *Report) {
 
 func init() {
 	props["C11"] = &PropSpec{
-		Models: []*Model{xmlModel, xmlspecModel},
+		Models: []*Model{xmlModel, xmlspecModel, c11XmlrefModel},
 		Oracles: []*Oracle{
 			{Name: "c11-structure", Run: c11StructOracle},
 			{Name: "c11-wellformed-vs-encoding-xml", Run: c11WellFormedOracle},
